@@ -1015,6 +1015,32 @@ def ob_literals(n):
         body = sym_str(n, 'body', 32, 126)        # every printable ASCII character: only the escapes Syntax.md lists are decoded, "unrecognized escape sequences are left in the string unchanged"
         multi = choose(2, 'triple')
         fp = ['', 'f'][choose(2, 'fstring')]       # an f-string without @name@ denotes the same string: the prefix must not change escape handling
+        if fp:
+            # ... and WITH an @identifier@ in the body it is a placeholder: no variable is defined here, so the reference says error (body length >= 3 only)
+            cs = chars_of(body)
+            isw = lambda c, first: decide(cin_range(c, 97, 122)) or decide(cin_range(c, 65, 90)) or decide(ceq(c, 95)) or (not first and decide(cin_range(c, 48, 57)))
+            for i in range(len(cs)):
+                if not decide(ceq(cs[i], 64)): continue
+                j = i + 1
+                while j < len(cs) and isw(cs[j], j == i + 1): j += 1
+                if j > i + 1 and j < len(cs) and decide(ceq(cs[j], 64)):
+                    q = "'''" if multi else "'"
+                    if not multi:         # only when the text is one literal at all (no quote, no trailing backslash before the closing quote)
+                        k2 = 0; lit = True
+                        while k2 < len(cs):
+                            if decide(ceq(cs[k2], 92)):
+                                if k2 + 1 >= len(cs): lit = False; break
+                                k2 += 2; continue
+                            if decide(ceq(cs[k2], 39)): lit = False; break
+                            k2 += 1
+                        if not lit: cover('not-one-literal'); return
+                    elif any(decide(ceq(c, 39)) for c in cs): cover('quote-in-triple'); return
+                    try:
+                        run_real("x = f" + q + body + q + "\n", {})
+                        check(False, 'an f-string naming an undefined variable is an error')
+                    except ME:
+                        cover('placeholder')
+                    return
         if multi:
             if "'''" in body if isinstance(body, str) else False: return
             text = "x = " + fp + "'''" + body + "'''\n"
@@ -1075,8 +1101,8 @@ def obligations(tier):
     out.append(Obligation('numbers', ob_numbers(), dict(programs=6), labels=('value', 'error'), max_paths=5000000))
     out.append(Obligation('control-flow', ob_control(), dict(programs=7), labels=('value', 'error'), max_paths=5000000))
     out.append(Obligation('variables', ob_variables(), dict(programs=6), labels=('value', 'error'), max_paths=5000000))
-    for n in (1, 2) if tier == 'quick' else (1, 2, 3):
-        out.append(Obligation('literals[%d]' % n, ob_literals(n), dict(body_len=n, alphabet="a \\ n ' 0 7"), labels=('value',), max_paths=5000000))
+    for n in (1, 2, 3):
+        out.append(Obligation('literals[%d]' % n, ob_literals(n), dict(body_len=n, alphabet='printable ASCII 32..126', kinds="'...' f'...' '''...''' f'''...'''"), labels=('value',), optional_labels=('placeholder', 'not-one-literal', 'quote-in-triple'), max_paths=5000000))
     out.append(Obligation('subdir-subproject', ob_subdir_subproject(), dict(programs=7, files='written to the scratch source tree per path (one directory per worker)', values='symbolic'), labels=('value', 'error')))
     out.append(Obligation('rejections', ob_rejections(), dict(forms=8), labels=('rejected',)))
     return out
